@@ -2,6 +2,7 @@
   wvmodel — the executable Lean model behind a one-line-in / one-line-out protocol.
   Imports only import-free model modules (no Mathlib), so it links as a `lean_exe`.
 -/
+import WowVerif.Model.Dispatch03
 import WowVerif.Model.Dispatch04
 import WowVerif.Model.Dispatch17
 import WowVerif.Model.Dispatch18
@@ -15,7 +16,7 @@ structure St where
 
 def step (st : St) (line : String) : St × String :=
   let toks := (line.trimAscii.toString.splitOn " ").filter (· ≠ "")
-  match ((((c04 toks).orElse (fun _ => c17 toks)).orElse (fun _ => c18 toks)).orElse (fun _ => c18b toks)).orElse (fun _ => c18c toks) with
+  match (((((c04 toks).orElse (fun _ => c17 toks)).orElse (fun _ => c18 toks)).orElse (fun _ => c18b toks)).orElse (fun _ => c18c toks)).orElse (fun _ => c03 toks) with
   | some r => (st, r)
   | none => (st, "bad-op")
 
